@@ -36,6 +36,14 @@ def _build(spec):
     if cls == "Converter":
         return stream.Converter(a["nfrom"], a["nto"], reverse=a.get("reverse", False),
                                 report_valid_token_count=a.get("vtc", False))
+    if cls == "StrideConverter" and a.get("fields"):
+        # several payload fields: the wide side keeps the `ratio` slices of each field together
+        nar = [("f%d" % k, w) for k, w in enumerate(a["fields"])]
+        wide = [("f%d" % k, w * a["ratio"]) for k, w in enumerate(a["fields"])]
+        par = [("p", spec["pw"])] if spec.get("pw") else []
+        dfrom, dto = (nar, wide) if a["up"] else (wide, nar)
+        return stream.StrideConverter(stream.EndpointDescription(dfrom, par), stream.EndpointDescription(dto, par),
+                                      reverse=a.get("reverse", False))
     if cls == "StrideConverter":
         dfrom = stream.EndpointDescription([("data", a["nfrom"])], [("p", spec["pw"])] if spec.get("pw") else [])
         dto = stream.EndpointDescription([("data", a["nto"])], [("p", spec["pw"])] if spec.get("pw") else [])
@@ -47,7 +55,8 @@ def _build(spec):
     if cls == "Gearbox":
         return stream.Gearbox(a["i"], a["o"], msb_first=a.get("msb", True))
     if cls == "Cast":
-        return stream.Cast([("a", a["wa"]), ("b", a["wb"])], a["wa"] + a["wb"],
+        to = [("c", a["ta"]), ("d", a["tb"])] if a.get("tb") else a["wa"] + a["wb"]
+        return stream.Cast([("a", a["wa"]), ("b", a["wb"])], to,
                            reverse_from=a.get("rf", False), reverse_to=a.get("rt", False))
     if cls == "Mux1":   # Multiplexer with sel tied, seen as an identity element on port `sel`
         m = stream.Multiplexer(L, a["n"])
@@ -177,6 +186,9 @@ def configs(tier):
                   _cfg("down", dset=ds, ratio=r, reverse=int(rev), w=nto, vtc=1, cap=r + 1)))
     L.append(({"cls": "Pack", "args": {"n": 2}, "dw": 1, "pw": 1}, _cfg("up", ratio=2, w=1, pmax=1, cap=3)))
     L.append(({"cls": "Pack", "args": {"n": 3, "reverse": True}, "dw": 1}, _cfg("up", ratio=3, reverse=1, w=1, cap=3)))
+    # demonstration of finding C03-pack-idle-first-last (own batch, no follow-up): the only Pack with junk on first/last
+    L.append(({"cls": "Pack", "args": {"n": 2}, "dw": 1, "demo": "idle-first-last", "nofollowup": True},
+              _cfg("up", ratio=2, w=1, cap=3)))
     L.append(({"cls": "Unpack", "args": {"n": 2}, "dw": 1, "pw": 1},
               _cfg("down", dset=range(4), ratio=2, w=1, pmax=1, cap=3)))
     L.append(({"cls": "Unpack", "args": {"n": 3, "reverse": True}, "dw": 1},
@@ -190,6 +202,22 @@ def configs(tier):
     L.append(({"cls": "StrideConverter", "args": {"nfrom": 2, "nto": 1}, "pw": 1},
               _cfg("down", dset=range(4), ratio=2, w=1, pmax=1, cap=3)))
     L.append(({"cls": "Cast", "args": {"wa": 1, "wb": 1}}, _cfg("id", dset=range(4), cap=2)))
+    # Cast with unequal field widths and reversed field order on either side (witness: a token that is really regrouped)
+    for wa, wb, rf, ta, tb, rt in [(1, 2, True, 0, 0, False), (2, 1, False, 1, 2, True), (1, 2, True, 2, 1, True)]:
+        L.append(({"cls": "Cast", "args": {"wa": wa, "wb": wb, "rf": rf, "ta": ta, "tb": tb, "rt": rt}},
+                  dict(_cfg("id", dset=range(8), cap=2), cast=[int(rf), wa, wb, int(rt), ta, tb],
+                       wit=["regrouped token delivered"])))
+    # StrideConverter with more than one payload field: the wide side groups the slices field by field
+    L.append(({"cls": "StrideConverter", "args": {"fields": [1, 1], "ratio": 2, "up": True, "reverse": True}},
+              dict(_cfg("up", dset=range(4), ratio=2, reverse=1, w=2, cap=3), fields=[1, 1], wit=["field-wise word"])))
+    L.append(({"cls": "StrideConverter", "args": {"fields": [2, 1], "ratio": 2, "up": False}, "pw": 1},
+              dict(_cfg("down", dset=(1, 2, 4, 8, 16, 32, 27, 44, 63), ratio=2, w=3, pmax=1, cap=3), fields=[2, 1],
+                   wit=["field-wise word"])))
+    # ratios that are not a power of two: the converters' own position counters must wrap explicitly
+    L.append(({"cls": "Converter", "args": {"nfrom": 1, "nto": 3, "reverse": True, "vtc": True}, "vtc": True},
+              _cfg("up", dset=range(2), ratio=3, reverse=1, w=1, vtc=1, cap=3)))
+    L.append(({"cls": "Converter", "args": {"nfrom": 3, "nto": 1, "reverse": False, "vtc": True}, "vtc": True},
+              _cfg("down", dset=range(8), ratio=3, w=1, vtc=1, cap=4)))
     # gearbox
     for i, o, msb in [(2, 3, True), (3, 2, False), (2, 4, True), (4, 2, False), (1, 2, True)]:
         import math
@@ -225,11 +253,16 @@ def configs(tier):
             L.append(({"cls": "SyncFIFO", "args": {"depth": depth, "buffered": buf}, "dw": 1},
                       _cfg("id", cap=depth + 3, fl=1 if depth == 3 else 0)))
         L.append(({"cls": "Delay", "args": {"n": 3}, "dw": 1}, _cfg("id", cap=5)))
-        for nfrom, nto, rev, vtc in [(1, 8, False, True), (1, 3, True, True), (2, 6, False, False)]:
+        L.append(({"cls": "StrideConverter", "args": {"fields": [1, 2], "ratio": 3, "up": True}, "pw": 1},
+                  dict(_cfg("up", dset=range(8), ratio=3, w=3, pmax=1, cap=3), fields=[1, 2], wit=["field-wise word"])))
+        L.append(({"cls": "StrideConverter", "args": {"fields": [1, 1], "ratio": 3, "up": False, "reverse": True}},
+                  dict(_cfg("down", dset=(1, 2, 4, 8, 16, 32, 27, 44, 63), ratio=3, reverse=1, w=2, cap=4), fields=[1, 1],
+                       wit=["field-wise word"])))
+        for nfrom, nto, rev, vtc in [(1, 8, False, True), (2, 6, False, False)]:
             r = nto // nfrom
             L.append(({"cls": "Converter", "args": {"nfrom": nfrom, "nto": nto, "reverse": rev, "vtc": vtc}, "vtc": vtc},
                       _cfg("up", dset=range(2**nfrom), ratio=r, reverse=int(rev), w=nfrom, vtc=int(vtc), cap=3)))
-        for nfrom, nto, rev in [(8, 1, False), (3, 1, True), (8, 2, False)]:
+        for nfrom, nto, rev in [(8, 1, False), (3, 1, True), (8, 2, False)]:     # (3, 1, False) is in the quick list
             r = nfrom // nto
             ds = {8: (1, 2, 4, 8, 16, 32, 64, 128, 0xa5, 0x3c), 3: range(8)}[nfrom]
             L.append(({"cls": "Converter", "args": {"nfrom": nfrom, "nto": nto, "reverse": rev, "vtc": True}, "vtc": True},
@@ -246,7 +279,59 @@ def configs(tier):
         L.append(({"cls": "Pipeline", "stages": [{"cls": "Pack", "args": {"n": 2}, "dw": 1},
                                                 {"cls": "Unpack", "args": {"n": 2}, "dw": 1}], "dw": 1},
                   _cfg("id", fl=0, cap=6, keep=1)))
-    return L
+    return _finish(L, tier)
+
+
+JUNK_W1 = "junk while idle"
+JUNK_W2 = "junk first/last in the cycle of a source handshake"
+
+
+def _wants_junk(spec, cfg, tier):
+    """configurations explored with the `junk` environment (any value on the data / first / last / param lines while
+    the producer offers nothing).  It is a superset of the canonical environment, so nothing is lost; it roughly
+    doubles the input alphabet, hence one cheap representative per mechanism in the quick tier."""
+    cls, a = spec["cls"], spec.get("args", {})
+    th = tier == "thorough"
+    if cls == "Pack":
+        return 1 if spec.get("demo") else 2      # finding C03-pack-idle-first-last: first/last junk only in the demonstration DUT
+    if cls in ("PipeValid", "PipeReady"):
+        return th or bool(spec.get("pw"))
+    if cls in ("Unpack", "Pipe"):
+        return True
+    if cls == "Shifter":
+        return th or a["dw"] == 3
+    if cls == "Buffer":
+        return th and bool(a.get("pv")) and bool(a.get("pr"))
+    if cls == "SyncFIFO":
+        return a["depth"] == 2 and (bool(spec.get("pw")) or (th and bool(a.get("buffered"))))
+    if cls == "Converter":
+        if th:
+            return (a["nfrom"], a["nto"]) in ((1, 2), (2, 4), (2, 1), (1, 3), (3, 1))
+        return (a["nfrom"], a["nto"], bool(a.get("reverse"))) in ((1, 2, False), (2, 1, False), (1, 3, True), (3, 1, False))
+    if cls == "StrideConverter":
+        return bool(spec.get("pw")) or (bool(a.get("fields")) and (th or not a["up"]))
+    if cls == "Gearbox":
+        return (a["i"], a["o"]) == (2, 3) or (th and (a["i"], a["o"]) == (4, 2))
+    if cls == "Pipeline":
+        return th and spec["stages"][0]["cls"] == "Converter"
+    return False
+
+
+def _finish(L, tier):
+    """witness indices (unique within the list) and the junk environment"""
+    out = []
+    for wi, (spec, cfg) in enumerate(L):
+        cfg = dict(cfg, wi=wi)
+        wit = list(cfg.get("wit", []))
+        j = int(_wants_junk(spec, cfg, tier))
+        if j:
+            cfg["junk"] = j
+            wit.append(JUNK_W1)
+            if cfg["kind"] == "up" and cfg["fl"] and j == 1 and not spec.get("demo"):
+                wit.append(JUNK_W2)
+        cfg["wit"] = wit
+        out.append((spec, cfg))
+    return out
 
 
 class Hint:
